@@ -93,18 +93,11 @@ Section C18.
   Theorem C18_alias_op_eq_root_op am o s : WFam am -> alias_step am o s = alias_step am (resolve_op am o) s.
   Proof. exact (alias_op_eq_root_op pycast arrcast infer astype_dt itemseq_exn am o s). Qed.
 
-  Theorem C18_alias_ops_same_target am o1 o2 s :
-    resolve_op am o1 = resolve_op am o2 -> alias_step am o1 s = alias_step am o2 s.
-  Proof. exact (alias_ops_same_target pycast arrcast infer astype_dt itemseq_exn am o1 o2 s). Qed.
-
   (* refinement to the canonical twin over ARBITRARY histories: the aliased object operated through any names and the
      alias-free object operated through the resolved names go through the same states and outcomes; the twin's operations
      mention no alias *)
   Theorem C18_alias_run_twin am ops s : alias_run am ops s = run (map (resolve_op am) ops) s.
   Proof. exact (alias_run_twin pycast arrcast infer astype_dt itemseq_exn am ops s). Qed.
-
-  Theorem C18_alias_trace_twin am ops s : alias_trace am ops s = run_trace (map (resolve_op am) ops) s.
-  Proof. exact (alias_trace_twin pycast arrcast infer astype_dt itemseq_exn am ops s). Qed.
 
   Theorem C18_twin_ops_mention_no_alias am o x :
     WFam am -> In x (op_names (resolve_op am o)) -> ~ In x (akeys (amap am)).
@@ -133,10 +126,6 @@ Section C18.
   Theorem C18_alias_getattr_eq_root am n s :
     WFam am -> alias_getattr_var am n s = alias_getattr_var am (resolve am n) s.
   Proof. exact (alias_getattr_eq_root am n s). Qed.
-
-  Theorem C18_alias_reads_agree am k1 k2 s :
-    resolve_key am k1 = resolve_key am k2 -> alias_getitem am k1 s = alias_getitem am k2 s.
-  Proof. exact (alias_reads_agree am k1 k2 s). Qed.
 
   (* ---------------------------------------------------------------- constructor keywords *)
   Theorem C18_resolve_kwargs_spec am x kw : assoc x (resolve_kwargs am kw) = last_for am x kw None.
@@ -251,16 +240,13 @@ Print Assumptions C18_resolve_idempotent.
 Print Assumptions C18_resolve_not_alias.
 Print Assumptions C18_resolve_is_chain_end.
 Print Assumptions C18_alias_op_eq_root_op.
-Print Assumptions C18_alias_ops_same_target.
 Print Assumptions C18_alias_run_twin.
-Print Assumptions C18_alias_trace_twin.
 Print Assumptions C18_twin_ops_mention_no_alias.
 Print Assumptions C18_alias_run_inv.
 Print Assumptions C18_alias_no_extra_storage.
 Print Assumptions C18_run_index.
 Print Assumptions C18_alias_read_eq_root_read.
 Print Assumptions C18_alias_getattr_eq_root.
-Print Assumptions C18_alias_reads_agree.
 Print Assumptions C18_resolve_kwargs_spec.
 Print Assumptions C18_resolve_kwargs_mention_no_alias.
 Print Assumptions C18_alias_run_canonical_twin.
